@@ -269,3 +269,46 @@ func fullToBand(a *ref.M, kd int, upper bool) *ref.M {
 	}
 	return ab
 }
+
+// refPivotedCholesky runs the outer-product Cholesky algorithm with complete
+// (diagonal) pivoting on a copy of the symmetric matrix a, by plain loops, and
+// returns the sequence of pivots (the largest remaining diagonal entry of the
+// Schur complement at each step) until a pivot is <= 0 or all n steps are
+// done. It applies no tolerance: the caller compares the pivots with tol.
+func refPivotedCholesky(a *ref.M) []float64 {
+	n := a.R
+	s := a.Clone()
+	alive := make([]bool, n)
+	for i := range alive {
+		alive[i] = true
+	}
+	var piv []float64
+	for step := 0; step < n; step++ {
+		p, best := -1, 0.0
+		for i := 0; i < n; i++ {
+			if alive[i] && (p < 0 || s.D[i*n+i] > best) {
+				p, best = i, s.D[i*n+i]
+			}
+		}
+		if !(best > 0) {
+			break
+		}
+		piv = append(piv, best)
+		alive[p] = false
+		for i := 0; i < n; i++ {
+			if !alive[i] {
+				continue
+			}
+			li := s.D[i*n+p] / best
+			if li == 0 {
+				continue
+			}
+			for j := 0; j < n; j++ {
+				if alive[j] {
+					s.D[i*n+j] -= li * s.D[p*n+j]
+				}
+			}
+		}
+	}
+	return piv
+}
